@@ -326,15 +326,12 @@ Proof.
 Qed.
 
 Lemma bmul_fin a b : bmul (Fin a) (Fin b) = Fin (a * b).
-Proof.
-  unfold bmul. destruct b as [|pb|pb]; [f_equal; lia| |];
-    (destruct a as [|pa|pa]; [f_equal; lia|reflexivity|reflexivity]).
-Qed.
+Proof. destruct a, b; simpl; try reflexivity. Qed.
 
 Lemma imul_iconst p a : imul (iconst p) (iconst a) = iconst (p * a).
 Proof.
   unfold imul. rewrite !is_bot_iconst. cbn [orb lb ub iconst]. rewrite bmul_fin.
-  unfold bmin4, bmax4, bmin, bmax. rewrite ble_refl. apply imk_fin_same.
+  unfold bmin4, bmax4, bmin, bmax. repeat rewrite ble_refl. apply imk_fin_same.
 Qed.
 
 Lemma ieq_iconst q : ieq (iconst q) (iconst q) = true.
@@ -362,39 +359,677 @@ Proof.
   intros [T _]. unfold compute_residual. rewrite T. simpl. rewrite N.eqb_refl. reflexivity.
 Qed.
 
+Lemma wf_ub_ne_MInf i : wf i -> ub i <> MInf.
+Proof. intros [->|[_ [H _]]]; auto. simpl. congruence. Qed.
+Lemma wf_lb_ne_PInf i : wf i -> lb i <> PInf.
+Proof. intros [->|[H _]]; auto. simpl. congruence. Qed.
+
+Lemma wf_itrim i j : wf i -> wf (itrim i j).
+Proof.
+  intros W. unfold itrim. destruct (isingleton j); auto.
+  destruct (beqb (lb i) (Fin z)).
+  - apply wf_imk; [congruence|apply wf_ub_ne_MInf; auto].
+  - destruct (beqb (ub i) (Fin z)); auto.
+    apply wf_imk; [apply wf_lb_ne_PInf; auto|congruence].
+Qed.
+
+Lemma itrim_sub i j z : gamma (itrim i j) z -> gamma i z.
+Proof.
+  unfold itrim. destruct (isingleton j); auto.
+  destruct (beqb (lb i) (Fin z0)) eqn:E1.
+  - intros G. apply gamma_imk_elim in G. destruct G as [G1 G2]. apply beqb_eq in E1.
+    split; auto. rewrite E1. simpl in *. apply Z.leb_le. apply Z.leb_le in G1. lia.
+  - destruct (beqb (ub i) (Fin z0)) eqn:E2; auto.
+    intros G. apply gamma_imk_elim in G. destruct G as [G1 G2]. apply beqb_eq in E2.
+    split; auto. rewrite E2. simpl in *. apply Z.leb_le. apply Z.leb_le in G2. lia.
+Qed.
+
+Lemma wf_refine_itv t a : wf (refine_itv t a).
+Proof.
+  unfold refine_itv. destruct (lc_kind t); try apply wf_top; try apply wf_iconst.
+  destruct (0 <? a); unfold ilower_half, iupper_half; apply wf_imk; simpl; congruence.
+Qed.
+
+(* s_refine: None iff the meet is empty; otherwise the interval of v becomes (something with
+   the points of) the meet and nothing else changes *)
+Lemma s_refine_spec v i st : iwf (get (s_map st) v) -> wf i ->
+  match s_refine v i st with
+  | None => is_bot (imeet (get (s_map st) v) i) = true
+  | Some st' =>
+    is_bot (imeet (get (s_map st) v) i) = false /\
+    (forall k, k <> v -> get (s_map st') k = get (s_map st) k) /\
+    (forall z, gamma (get (s_map st') v) z <-> gamma (imeet (get (s_map st) v) i) z) /\
+    iwf (get (s_map st') v)
+  end.
+Proof.
+  intros Wo Wi. unfold s_refine. set (old := get (s_map st) v).
+  destruct (is_bot (imeet old i)) eqn:B; auto.
+  assert (Wn : iwf (imeet old i)) by (split; auto; apply wf_imeet; auto; apply Wo).
+  destruct (negb (ieq old (imeet old i))) eqn:Q; cbn [s_map].
+  - split; auto. split; [intros k Hk; apply get_put_other; auto|]. split.
+    + intros z. apply get_put_same_gamma; auto.
+    + apply get_put_same_iwf; auto.
+  - apply negb_false_iff in Q. split; auto. split; auto. split; auto.
+    intros z. fold old. apply (ieq_sound _ _ Q).
+Qed.
+
 (* after propagating a table entry: None iff the new interval is empty; otherwise only the
    interval of x may change, to something with the same points as [entry_itv] *)
-Lemma propagate_ut t a x st : ut t a x ->
+Lemma propagate_ut t a x st : ut t a x -> lc_kind t <> STRICT -> iwf (get (s_map st) x) ->
   match propagate t st with
   | None => is_bot (entry_itv t a (get (s_map st) x)) = true
   | Some st' =>
     is_bot (entry_itv t a (get (s_map st) x)) = false /\
     (forall k, k <> x -> get (s_map st') k = get (s_map st) k) /\
     (forall z, gamma (get (s_map st') x) z <-> gamma (entry_itv t a (get (s_map st) x)) z) /\
-    (iwf (get (s_map st) x) -> iwf (get (s_map st') x))
+    iwf (get (s_map st') x)
   end.
 Proof.
-  intros U. pose proof U as [T Ua]. unfold propagate. rewrite T. cbn [propagate_terms].
+  intros U NS Wo. pose proof U as [T Ua]. unfold propagate. rewrite T. cbn [propagate_terms].
   unfold propagate_term. rewrite (compute_residual_ut t a x st U). cbn [s_map s_refined s_ops].
   rewrite is_top_iconst. rewrite (idiv_unit _ a Ua). rewrite imul_iconst.
   replace (a * - le_cst (lc_exp t) * a) with (- le_cst (lc_exp t)) by (destruct Ua; subst; lia).
-  rewrite ieq_iconst. unfold entry_itv, refine_itv.
-  set (old := get (s_map st) x).
+  rewrite ieq_iconst. unfold entry_itv.
+  set (st0 := {| s_map := s_map st; s_refined := s_refined st; s_ops := s_ops st |}).
+  set (old := get (s_map st) x) in *.
   assert (REF : forall i, wf i ->
-    match s_refine x i (mkS (s_map st) (s_refined st) (s_ops st)) with
+    match (match s_refine x i st0 with Some st' => Some st' | None => None end) with
     | None => is_bot (imeet old i) = true
     | Some st' => is_bot (imeet old i) = false /\
                   (forall k, k <> x -> get (s_map st') k = get (s_map st) k) /\
                   (forall z, gamma (get (s_map st') x) z <-> gamma (imeet old i) z) /\
-                  (iwf old -> iwf (get (s_map st') x))
+                  iwf (get (s_map st') x)
     end).
-  { intros i Wi. unfold s_refine. cbn [s_map s_refined s_ops]. fold old.
-    destruct (is_bot (imeet old i)) eqn:B; auto.
-    destruct (negb (ieq old (imeet old i))) eqn:Q; cbn [s_map].
-    - split; auto. split; [intros k Hk; apply get_put_other; auto|]. split.
-      + intros z. apply get_put_same_gamma. split; auto.
-        unfold old. admit.
-      + admit.
-    - admit. }
-  admit.
-Admitted.
+  { intros i Wi. pose proof (s_refine_spec x i st0 Wo Wi) as R. cbn [s_map st0] in R. fold old in R.
+    destruct (s_refine x i st0); auto. }
+  destruct (lc_kind t) eqn:K; try congruence.
+  - (* EQ *) unfold refine_itv. rewrite K. apply REF. apply wf_iconst.
+  - (* DISEQ *)
+    set (nw := itrim old (iconst (a * - le_cst (lc_exp t)))).
+    destruct (is_bot nw) eqn:B; auto.
+    assert (Wn : iwf nw) by (split; auto; apply wf_itrim; apply Wo).
+    destruct (negb (ieq old nw)) eqn:Q; cbn [s_map].
+    + split; auto. split; [intros k Hk; apply get_put_other; auto|]. split.
+      * intros z. apply get_put_same_gamma; auto.
+      * apply get_put_same_iwf; auto.
+    + apply negb_false_iff in Q. split; auto. split; auto. split; auto.
+      intros z. apply (ieq_sound _ _ Q).
+  - (* INEQ *)
+    pose proof (wf_refine_itv t a) as Wr. unfold refine_itv in *. rewrite K in *.
+    destruct (0 <? a); apply REF; auto.
+Qed.
+
+(* ---- every loop of the solver keeps the invariant and only shrinks intervals *)
+Definition inv (st : sst) : Prop := mwfI (s_map st).
+Definition shr (st st' : sst) : Prop :=
+  forall k z, gamma (get (s_map st') k) z -> gamma (get (s_map st) k) z.
+Definition tbl (table : list lincst) : Prop :=
+  forall t, In t table -> exists a x, ut t a x /\ lc_kind t <> STRICT.
+
+Lemma shr_refl st : shr st st. Proof. intros k z; auto. Qed.
+Lemma shr_trans a b c : shr a b -> shr b c -> shr a c.
+Proof. intros H1 H2 k z G. apply H1. apply H2. auto. Qed.
+
+Lemma entry_sub t a old z : gamma (entry_itv t a old) z -> gamma old z.
+Proof.
+  unfold entry_itv. destruct (lc_kind t); auto; try (intros G; apply imeet_exact in G; tauto).
+  apply itrim_sub.
+Qed.
+
+Lemma propagate_pres t st st' : (exists a x, ut t a x /\ lc_kind t <> STRICT) -> inv st ->
+  propagate t st = Some st' -> inv st' /\ shr st st'.
+Proof.
+  intros [a [x [U NS]]] I E. pose proof (propagate_ut t a x st U NS (I x)) as P. rewrite E in P.
+  destruct P as [_ [O [G W]]]. split.
+  - intros k. destruct (N.eq_dec k x) as [->|N]; auto. rewrite O by auto. apply I.
+  - intros k z. destruct (N.eq_dec k x) as [->|N].
+    + intros Z. apply G in Z. eapply entry_sub; eauto.
+    + rewrite O by auto. auto.
+Qed.
+
+Lemma propagate_all_pres table : tbl table -> forall st st', inv st ->
+  propagate_all table st = Some st' -> inv st' /\ shr st st'.
+Proof.
+  induction table as [|t r IH]; intros T st st' I E; simpl in E.
+  - inversion E; subst. split; auto. apply shr_refl.
+  - destruct (propagate t st) as [st1|] eqn:P; [|discriminate].
+    destruct (propagate_pres t st st1 (T t (or_introl eq_refl)) I P) as [I1 S1].
+    destruct (IH (fun t' J => T t' (or_intror J)) st1 st' I1 E) as [I2 S2].
+    split; auto. eapply shr_trans; eauto.
+Qed.
+
+Lemma reset_inv st : inv st -> inv (mkS (s_map st) [] (s_ops st)).
+Proof. auto. Qed.
+Lemma reset_shr st st' : shr (mkS (s_map st) [] (s_ops st)) st' -> shr st st'.
+Proof. auto. Qed.
+
+Lemma small_loop_pres table max : tbl table -> forall fuel cycle st st', inv st ->
+  small_loop fuel table cycle max st = Some st' -> inv st' /\ shr st st'.
+Proof.
+  intros T. induction fuel as [|f IH]; intros cycle st st' I E; simpl in E.
+  - inversion E; subst. split; auto. apply shr_refl.
+  - destruct (propagate_all table _) as [st1|] eqn:P; [|discriminate].
+    destruct (propagate_all_pres table T _ _ (reset_inv st I) P) as [I1 S1].
+    destruct (s_refined st1).
+    + inversion E; subst. split; auto.
+    + destruct (_ <=? _)%N.
+      * destruct (IH _ _ _ I1 E) as [I2 S2]. split; auto. eapply shr_trans; [apply S1|apply S2].
+      * inversion E; subst. split; auto.
+Qed.
+
+Lemma propagate_idx_pres table : tbl table -> forall idx st st', inv st ->
+  propagate_idx table idx st = Some st' -> inv st' /\ shr st st'.
+Proof.
+  intros T. induction idx as [|i r IH]; intros st st' I E; simpl in E.
+  - inversion E; subst. split; auto. apply shr_refl.
+  - destruct (nth_error table i) as [c|] eqn:N.
+    + destruct (propagate c st) as [st1|] eqn:P; [|discriminate].
+      destruct (propagate_pres c st st1 (T c (nth_error_In _ _ N)) I P) as [I1 S1].
+      destruct (IH _ _ I1 E) as [I2 S2]. split; auto. eapply shr_trans; eauto.
+    + apply IH; auto.
+Qed.
+
+Lemma process_vars_pres table : tbl table -> forall vs st st', inv st ->
+  process_vars table vs st = Some st' -> inv st' /\ shr st st'.
+Proof.
+  intros T. induction vs as [|v r IH]; intros st st' I E; simpl in E.
+  - inversion E; subst. split; auto. apply shr_refl.
+  - destruct (propagate_idx table _ st) as [st1|] eqn:P; [|discriminate].
+    destruct (propagate_idx_pres table T _ _ _ I P) as [I1 S1].
+    destruct (IH _ _ I1 E) as [I2 S2]. split; auto. eapply shr_trans; eauto.
+Qed.
+
+Lemma large_loop_pres table max : tbl table -> forall fuel st st', inv st ->
+  large_loop fuel table max st = Some st' -> inv st' /\ shr st st'.
+Proof.
+  intros T. induction fuel as [|f IH]; intros st st' I E; simpl in E.
+  - inversion E; subst. split; auto. apply shr_refl.
+  - destruct (process_vars table _ _) as [st1|] eqn:P; [|discriminate].
+    destruct (process_vars_pres table T _ _ _ (reset_inv st I) P) as [I1 S1].
+    destruct (s_refined st1).
+    + inversion E; subst. split; auto.
+    + destruct (_ <=? _)%N.
+      * destruct (IH _ _ I1 E) as [I2 S2]. split; auto. eapply shr_trans; [apply S1|apply S2].
+      * inversion E; subst. split; auto.
+Qed.
+
+(* ---- the constraints of the language and their table entries *)
+Definition lang1 (c : lincst) (a : Z) (x : var) : Prop := ut c a x /\ lc_kind c <> DISEQ.
+
+Definition sat1 (c : lincst) (a z : Z) : Prop :=
+  let v := a * z + le_cst (lc_exp c) in
+  match lc_kind c with EQ => v = 0 | DISEQ => v <> 0 | INEQ => v <= 0 | STRICT => v < 0 end.
+
+Lemma sat_sat1 c a x s : ut c a x -> (sat c s <-> sat1 c a (s x)).
+Proof.
+  intros [T _]. unfold sat, sat1, eval_le. rewrite T. cbn [eval_terms].
+  replace (a * s x + 0 + le_cst (lc_exp c)) with (a * s x + le_cst (lc_exp c)) by lia. tauto.
+Qed.
+
+Definition blk (c : lincst) : list lincst :=
+  match lc_kind c with
+  | STRICT => [mkLC INEQ (lc_exp c); mkLC DISEQ (lc_exp c)]
+  | _ => [c]
+  end.
+
+Lemma blk_tbl c a x : lang1 c a x -> tbl (blk c).
+Proof.
+  intros [[T U] ND] t I. unfold blk in I. exists a, x.
+  destruct (lc_kind c) eqn:K; simpl in I; try congruence.
+  - destruct I as [<-|[]]. split; [split; auto|congruence].
+  - destruct I as [<-|[]]. split; [split; auto|congruence].
+  - destruct I as [<-|[<-|[]]]; (split; [split; auto|simpl; congruence]).
+Qed.
+
+Lemma ub_tight i q : iwf i -> (forall z, gamma i z -> z <= q) -> gamma i q -> ub i = Fin q.
+Proof.
+  intros [W B] H [G1 G2]. destruct (ub i) as [|u|] eqn:E; simpl in G2; try discriminate.
+  - apply Z.leb_le in G2. destruct (Z.eq_dec u q); [congruence|].
+    assert (X : gamma i (q + 1)).
+    { split; rewrite ?E; simpl.
+      - eapply ble_trans; [exact G1|]. simpl. apply Z.leb_le. lia.
+      - apply Z.leb_le. lia. }
+    specialize (H _ X). lia.
+  - assert (X : gamma i (q + 1)).
+    { split; rewrite ?E; simpl; auto. eapply ble_trans; [exact G1|]. simpl. apply Z.leb_le. lia. }
+    specialize (H _ X). lia.
+Qed.
+Lemma lb_tight i q : iwf i -> (forall z, gamma i z -> q <= z) -> gamma i q -> lb i = Fin q.
+Proof.
+  intros [W B] H [G1 G2]. destruct (lb i) as [|l|] eqn:E; simpl in G1; try discriminate.
+  - assert (X : gamma i (q - 1)).
+    { split; rewrite ?E; simpl; auto. eapply ble_trans; [|exact G2]. simpl. apply Z.leb_le. lia. }
+    specialize (H _ X). lia.
+  - apply Z.leb_le in G1. destruct (Z.eq_dec l q); [congruence|].
+    assert (X : gamma i (q - 1)).
+    { split; rewrite ?E; simpl.
+      - apply Z.leb_le. lia.
+      - eapply ble_trans; [|exact G2]. simpl. apply Z.leb_le. lia. }
+    specialize (H _ X). lia.
+Qed.
+
+Lemma gamma_lower_half q z : gamma (ilower_half (iconst q)) z <-> z <= q.
+Proof. unfold ilower_half. rewrite gamma_imk. simpl. rewrite Z.leb_le. tauto. Qed.
+Lemma gamma_upper_half q z : gamma (iupper_half (iconst q)) z <-> q <= z.
+Proof. unfold iupper_half. rewrite gamma_imk. simpl. rewrite Z.leb_le. tauto. Qed.
+
+(* trimming q off an interval whose points are all <= q (or all >= q) removes q *)
+Lemma itrim_removes i q : iwf i ->
+  ((forall z, gamma i z -> z <= q) \/ (forall z, gamma i z -> q <= z)) ->
+  is_bot (itrim i (iconst q)) = false -> ~ gamma (itrim i (iconst q)) q.
+Proof.
+  intros W H B G. pose proof (itrim_sub _ _ _ G) as Gi.
+  unfold itrim in *. rewrite isingleton_iconst in *.
+  destruct H as [H|H].
+  - pose proof (ub_tight i q W H Gi) as U.
+    destruct (beqb (lb i) (Fin q)) eqn:E1.
+    + rewrite U in B. unfold is_bot, imk, bgt in B. simpl in B.
+      replace (q + 1 <=? q) with false in B by (symmetry; apply Z.leb_gt; lia). simpl in B.
+      discriminate.
+    + rewrite U in G. simpl in G. rewrite Z.eqb_refl in G.
+      apply gamma_imk_elim in G. destruct G as [_ G]. simpl in G. apply Z.leb_le in G. lia.
+  - pose proof (lb_tight i q W H Gi) as L. rewrite L in G. simpl in G. rewrite Z.eqb_refl in G.
+    apply gamma_imk_elim in G. destruct G as [G _]. simpl in G. apply Z.leb_le in G. lia.
+Qed.
+
+(* propagating the table entries of a constraint enforces it on the interval of its variable *)
+Lemma block_enforce c a x st st' : lang1 c a x -> inv st ->
+  propagate_all (blk c) st = Some st' ->
+  (forall z, gamma (get (s_map st') x) z -> sat1 c a z) /\ inv st' /\ shr st st'.
+Proof.
+  intros L I E. destruct (propagate_all_pres _ (blk_tbl c a x L) _ _ I E) as [I' S].
+  split; auto. destruct L as [[T U] ND]. unfold blk in E. unfold sat1.
+  destruct (lc_kind c) eqn:K; try congruence.
+  - (* EQ *)
+    simpl in E. destruct (propagate c st) as [st1|] eqn:P; inversion E; subst.
+    pose proof (propagate_ut c a x st (conj T U) ltac:(congruence) (I x)) as X. rewrite P in X.
+    destruct X as [_ [_ [G _]]]. intros z Z. apply G in Z. unfold entry_itv, refine_itv in Z.
+    rewrite K in Z. apply imeet_exact in Z. destruct Z as [_ Z]. apply gamma_iconst in Z.
+    destruct U; subst; lia.
+  - (* INEQ *)
+    simpl in E. destruct (propagate c st) as [st1|] eqn:P; inversion E; subst.
+    pose proof (propagate_ut c a x st (conj T U) ltac:(congruence) (I x)) as X. rewrite P in X.
+    destruct X as [_ [_ [G _]]]. intros z Z. apply G in Z. unfold entry_itv, refine_itv in Z.
+    rewrite K in Z. apply imeet_exact in Z. destruct Z as [_ Z].
+    destruct U as [->| ->].
+    + change (gamma (ilower_half (iconst (1 * - le_cst (lc_exp c)))) z) in Z. apply gamma_lower_half in Z. lia.
+    + change (gamma (iupper_half (iconst (-1 * - le_cst (lc_exp c)))) z) in Z. apply gamma_upper_half in Z. lia.
+  - (* STRICT: INEQ then DISEQ on the same expression *)
+    simpl in E.
+    set (c1 := mkLC INEQ (lc_exp c)) in *. set (c2 := mkLC DISEQ (lc_exp c)) in *.
+    destruct (propagate c1 st) as [st1|] eqn:P1; [|discriminate].
+    destruct (propagate c2 st1) as [st2|] eqn:P2; inversion E; subst.
+    pose proof (propagate_ut c1 a x st (conj T U) ltac:(simpl; congruence) (I x)) as X1. rewrite P1 in X1.
+    destruct X1 as [_ [_ [G1 W1]]].
+    pose proof (propagate_ut c2 a x st1 (conj T U) ltac:(simpl; congruence) W1) as X2. rewrite P2 in X2.
+    destruct X2 as [B2 [_ [G2 _]]].
+    unfold entry_itv, refine_itv in G1, G2, B2. simpl in G1, G2, B2.
+    intros z Z. apply G2 in Z.
+    set (q := a * - le_cst (lc_exp c)) in *.
+    assert (Z1 : gamma (get (s_map st1) x) z) by (eapply itrim_sub; eauto).
+    assert (H1 : forall y, gamma (get (s_map st1) x) y -> a * y + le_cst (lc_exp c) <= 0).
+    { intros y Y. apply G1 in Y. apply imeet_exact in Y. destruct Y as [_ Y]. unfold q in *.
+      destruct U as [->| ->].
+      - change (gamma (ilower_half (iconst (1 * - le_cst (lc_exp c)))) y) in Y. apply gamma_lower_half in Y. lia.
+      - change (gamma (iupper_half (iconst (-1 * - le_cst (lc_exp c)))) y) in Y. apply gamma_upper_half in Y. lia. }
+    assert (NQ : z <> q).
+    { intros ->. revert Z. apply itrim_removes; auto.
+      destruct U; subst a; [left|right]; intros y Y; specialize (H1 y Y); unfold q; lia. }
+    specialize (H1 z Z1). unfold q in NQ. destruct U; subst a; lia.
+Qed.
+
+(* ---- preprocessing keeps exactly the blocks of the constraints *)
+Definition lang (c : lincst) : Prop := exists a x, lang1 c a x.
+
+Lemma lang_not_constant c : lang c -> le_is_constant (lc_exp c) = false.
+Proof. intros [a [x [[T _] _]]]. unfold le_is_constant. rewrite T. reflexivity. Qed.
+
+Lemma preprocess_lang : forall cs table opc, Forall lang cs ->
+  p_contra (preprocess cs table opc) = false /\
+  p_table (preprocess cs table opc) = table ++ flat_map blk cs.
+Proof.
+  induction cs as [|c r IH]; intros table opc F; simpl.
+  - rewrite app_nil_r. auto.
+  - inversion F as [|? ? L F']; subst.
+    unfold lc_is_contradiction, lc_is_tautology. rewrite (lang_not_constant c L). cbn [andb].
+    unfold blk. destruct (lc_kind c) eqn:K;
+      try (destruct L as [a [x [_ ND]]]; congruence);
+      match goal with |- context [preprocess r ?t ?o] => destruct (IH t o F') as [P1 P2] end;
+      rewrite P1, P2, <- app_assoc; auto.
+Qed.
+
+Lemma propagate_all_app l1 l2 st :
+  propagate_all (l1 ++ l2) st =
+  match propagate_all l1 st with Some st1 => propagate_all l2 st1 | None => None end.
+Proof.
+  revert st. induction l1 as [|t r IH]; intros st; simpl; auto.
+  destruct (propagate t st); auto.
+Qed.
+
+Definition enforced (c : lincst) (st : sst) : Prop :=
+  exists a x, lang1 c a x /\ forall z, gamma (get (s_map st) x) z -> sat1 c a z.
+
+Lemma enforced_shr c st st' : enforced c st -> shr st st' -> enforced c st'.
+Proof. intros [a [x [L H]]] S. exists a, x. split; auto. Qed.
+
+Lemma flat_tbl cs : Forall lang cs -> tbl (flat_map blk cs).
+Proof.
+  intros F t I. apply in_flat_map in I. destruct I as [c [Ic It]].
+  rewrite Forall_forall in F. destruct (F _ Ic) as [a [x L]]. apply (blk_tbl c a x L t It).
+Qed.
+
+Lemma enforce_all : forall cs st st', Forall lang cs -> inv st ->
+  propagate_all (flat_map blk cs) st = Some st' ->
+  (forall c, In c cs -> enforced c st') /\ inv st' /\ shr st st'.
+Proof.
+  induction cs as [|c r IH]; intros st st' F I E; simpl in E.
+  - inversion E; subst. split; [intros c []|]. split; auto. apply shr_refl.
+  - inversion F as [|? ? [a [x L]] F']; subst. rewrite propagate_all_app in E.
+    destruct (propagate_all (blk c) st) as [st1|] eqn:P; [|discriminate].
+    destruct (block_enforce c a x st st1 L I P) as [H1 [I1 S1]].
+    destruct (IH _ _ F' I1 E) as [H2 [I2 S2]]. split; [|split; auto; eapply shr_trans; eauto].
+    intros c' [<-|J]; auto. apply (enforced_shr c st1); auto. exists a, x. auto.
+Qed.
+
+Lemma lang_wf_lc c : lang c -> wf_lc c.
+Proof.
+  intros [a [x [[T U] _]]]. unfold wf_lc, wf_le. rewrite T. simpl. split.
+  - repeat constructor. simpl. tauto.
+  - intros k v [E|[]]. inversion E; subst. destruct U; lia.
+Qed.
+
+Lemma small_loop_first table max f cycle st st' :
+  small_loop (S f) table cycle max st = Some st' ->
+  exists st1, propagate_all table (mkS (s_map st) [] (s_ops st)) = Some st1 /\
+              (st' = st1 \/ exists c, small_loop f table c max st1 = Some st').
+Proof.
+  simpl. destruct (propagate_all table _) as [st1|]; [|discriminate]. intros E.
+  exists st1. split; auto. destruct (s_refined st1).
+  - inversion E; auto.
+  - destruct (_ <=? _)%N; [right; eexists; eauto|inversion E; auto].
+Qed.
+
+(* the solver is exact on the language *)
+Theorem solve_lang_exact cs max m : Forall lang cs -> mwfI m ->
+  match solve cs max m with
+  | None => forall s, gmap m s -> ~ Forall (fun c => sat c s) cs
+  | Some m' => mwfI m' /\ forall s, gmap m' s <-> (gmap m s /\ Forall (fun c => sat c s) cs)
+  end.
+Proof.
+  intros F M.
+  assert (SOUND : forall s, gmap m s -> Forall (fun c => sat c s) cs ->
+            match solve cs max m with Some m' => gmap m' s | None => False end).
+  { intros s G A. apply solve_sound; auto. intros c I. rewrite Forall_forall in F, A.
+    split; [apply lang_wf_lc|]; auto. }
+  assert (X : forall m', solve cs max m = Some m' ->
+            mwfI m' /\ (forall s, gmap m' s -> gmap m s /\ Forall (fun c => sat c s) cs)).
+  { intros m' E. unfold solve in E. destruct (preprocess_lang cs [] 0%N F) as [PC PT].
+    rewrite PC in E. rewrite PT in E. cbn [app] in E.
+    set (table := flat_map blk cs) in *. pose proof (flat_tbl cs F) as T.
+    set (st0 := mkS m [] 0%N) in *. assert (I0 : inv st0) by exact M.
+    assert (FIN : exists st1 st, propagate_all table st0 = Some st1 /\ shr st1 st /\ inv st /\ s_map st = m').
+    { match type of E with context [if ?b then _ else _] => destruct b end.
+      - destruct (propagate_all table st0) as [st1|] eqn:P; [|discriminate].
+        destruct (enforce_all cs st0 st1 F I0 P) as [_ [I1 _]].
+        match type of E with context [large_loop ?f table ?mo st1] =>
+          destruct (large_loop f table mo st1) as [st|] eqn:L; [|discriminate];
+          destruct (large_loop_pres table mo T f _ _ I1 L) as [I2 S2] end.
+        exists st1, st. inversion E; subst. auto.
+      - match type of E with context [small_loop (S ?f) table ?c max st0] =>
+          destruct (small_loop (S f) table c max st0) as [st|] eqn:L; [|discriminate] end.
+        destruct (small_loop_first _ _ _ _ _ _ L) as [st1 [P R]].
+        change (mkS (s_map st0) [] (s_ops st0)) with st0 in P.
+        destruct (enforce_all cs st0 st1 F I0 P) as [_ [I1 _]].
+        exists st1, st. inversion E; subst. destruct R as [->|[c R]].
+        + split; auto. split; [apply shr_refl|]. split; auto.
+        + destruct (small_loop_pres table max T _ _ _ _ I1 R) as [I2 S2]. auto. }
+    destruct FIN as [st1 [st [P [S [I E']]]]]. subst m'.
+    destruct (enforce_all cs st0 st1 F I0 P) as [EN [I1 S1]].
+    split; auto. intros s G. split.
+    - intros k. apply (S1 k). apply (S k). apply G.
+    - apply Forall_forall. intros c Ic. destruct (EN c Ic) as [a [x [[U ND] H]]].
+      apply (sat_sat1 c a x s U). apply H. apply (S x). apply G. }
+  destruct (solve cs max m) as [m'|] eqn:E.
+  - destruct (X m' eq_refl) as [M' H]. split; auto. intros s. split; auto.
+    intros [G A]. apply (SOUND s G A).
+  - intros s G A. apply (SOUND s G A).
+Qed.
+
+(* ------------------------------------------------------------------ assume *)
+Lemma terms_eqb_eq a : forall b, terms_eqb a b = true -> a = b.
+Proof.
+  induction a as [|[c v] r IH]; intros [|[c' v'] r']; simpl; try discriminate; auto.
+  intros H. apply andb_true_iff in H. destruct H as [H H3]. apply andb_true_iff in H.
+  destruct H as [H1 H2]. apply Z.eqb_eq in H1. apply N.eqb_eq in H2. subst. f_equal. auto.
+Qed.
+
+Lemma lc_eqb_eq a b : lc_eqb a b = true -> a = b.
+Proof.
+  destruct a as [ka [ta ca]], b as [kb [tb cb]]. unfold lc_eqb, le_eqb. simpl. intros H.
+  apply andb_true_iff in H. destruct H as [H1 H]. apply andb_true_iff in H. destruct H as [H2 H3].
+  apply terms_eqb_eq in H2. apply Z.eqb_eq in H3. subst.
+  destruct ka, kb; simpl in H1; try discriminate; reflexivity.
+Qed.
+
+Lemma sys_add_spec acc c x : In x (sys_add acc c) <-> (In x acc \/ x = c).
+Proof.
+  unfold sys_add. destruct (existsb (fun c1 => lc_eqb c1 c) acc) eqn:E.
+  - split; auto. intros [H|H]; auto. subst x. apply existsb_exists in E. destruct E as [c1 [I Q]].
+    apply lc_eqb_eq in Q. subst. auto.
+  - rewrite in_app_iff. simpl. split; intros [H|H]; auto. destruct H as [<-|[]]; auto.
+Qed.
+
+Lemma fold_sys_add_spec cs : forall acc x,
+  In x (fold_left sys_add cs acc) <-> (In x acc \/ In x cs).
+Proof.
+  induction cs as [|c r IH]; intros acc x; simpl; [tauto|].
+  rewrite IH, sys_add_spec. split; intros H; intuition (subst; auto).
+Qed.
+
+Lemma lang_not_diseq c : lang c -> ckind_eqb (lc_kind c) DISEQ = false.
+Proof. intros [a [x [_ ND]]]. destruct (lc_kind c); auto. congruence. Qed.
+
+Lemma fold_left_lang_ext (f : list lincst -> lincst -> list lincst) cs :
+  (forall acc c, lang c -> f acc c = sys_add acc c) -> Forall lang cs ->
+  forall acc, fold_left f cs acc = fold_left sys_add cs acc.
+Proof.
+  intros H F. induction F as [|c r L F IH]; intros acc; simpl; auto. rewrite H by auto. apply IH.
+Qed.
+
+Lemma d_add_lang_unfold m cs : Forall lang cs ->
+  d_add cs (EMap m) = match solve (fold_left sys_add cs []) max_reduction_cycles m with
+                      | None => EBot | Some m' => EMap m' end.
+Proof.
+  intros F. unfold d_add.
+  match goal with |- context [fold_left ?f cs []] =>
+    rewrite (fold_left_lang_ext f cs) by
+      (auto; intros acc c L; cbv beta zeta; rewrite (lang_not_diseq c L); reflexivity) end.
+  reflexivity.
+Qed.
+
+(* assuming constraints of the language is exact, and bottom means unsatisfiable *)
+Theorem d_add_lang_exact cs e : Forall lang cs -> ewf e ->
+  ewf (d_add cs e) /\
+  forall s, genv (d_add cs e) s <-> (genv e s /\ Forall (fun c => sat c s) cs).
+Proof.
+  intros F W. destruct e as [|m].
+  - split; [exact I|]. intros s. simpl. tauto.
+  - rewrite (d_add_lang_unfold m cs F).
+    set (pp := fold_left sys_add cs []).
+    assert (Fp : Forall lang pp).
+    { apply Forall_forall. intros x I. apply fold_sys_add_spec in I. destruct I as [[]|I].
+      rewrite Forall_forall in F. auto. }
+    assert (EQ : forall s, Forall (fun c => sat c s) pp <-> Forall (fun c => sat c s) cs).
+    { intros s. rewrite !Forall_forall. split; intros H x I; apply H.
+      - apply fold_sys_add_spec. auto.
+      - apply fold_sys_add_spec in I. destruct I as [[]|I]; auto. }
+    pose proof (solve_lang_exact pp max_reduction_cycles m Fp W) as S.
+    destruct (solve pp max_reduction_cycles m) as [m'|].
+    + destruct S as [M' G]. split; auto. intros s. simpl. rewrite G, EQ. tauto.
+    + split; [exact I|]. intros s. simpl. split; [tauto|]. intros [G A]. apply (S s G). apply EQ. auto.
+Qed.
+
+Theorem d_add_lang_bottom cs e : Forall lang cs -> ewf e ->
+  (e_is_bot (d_add cs e) = true <-> forall s, genv e s -> ~ Forall (fun c => sat c s) cs).
+Proof.
+  intros F W. destruct (d_add_lang_exact cs e F W) as [W' G].
+  rewrite (e_bottom_exact _ W'). split.
+  - intros H s Gs A. apply (H s). apply G. auto.
+  - intros H s Gs. apply G in Gs. destruct Gs as [Gs A]. apply (H s Gs A).
+Qed.
+
+(* ------------------------------------------------------------------ entails *)
+Lemma unit1_opp a : unit1 a -> unit1 (- a).
+Proof. intros [->| ->]; [right|left]; reflexivity. Qed.
+
+Lemma lang1_ineq_of e a x : le_terms e = [(a, x)] -> unit1 a -> lang1 (mkLC INEQ e) a x.
+Proof. intros T U. split; [split; auto|simpl; congruence]. Qed.
+
+Lemma le_neg_terms e a x : le_terms e = [(a, x)] -> le_terms (le_neg e) = [(- a, x)].
+Proof. intros T. unfold le_neg. simpl. rewrite T. reflexivity. Qed.
+
+Lemma lc_negate_lang c a x : lang1 c a x -> lc_kind c <> EQ -> lang1 (lc_negate c) (- a) x.
+Proof.
+  intros [[T U] ND] NE. unfold lc_negate, lc_is_tautology, lc_is_contradiction.
+  assert (NC : le_is_constant (lc_exp c) = false) by (unfold le_is_constant; rewrite T; reflexivity).
+  rewrite NC. cbn [andb]. destruct (lc_kind c); try congruence.
+  - apply lang1_ineq_of; [|apply unit1_opp; auto]. apply le_neg_terms. unfold le_addc. simpl. auto.
+  - apply lang1_ineq_of; [|apply unit1_opp; auto]. apply le_neg_terms. auto.
+Qed.
+
+Lemma gmap_single I x s : iwf I -> (gmap (put [] x I) s <-> gamma I (s x)).
+Proof.
+  intros W. split.
+  - intros G. apply (get_put_same_gamma [] x I (s x) W). apply G.
+  - intros G k. destruct (N.eq_dec k x) as [->|N].
+    + apply get_put_same_gamma; auto.
+    + rewrite get_put_other by auto. simpl. apply gamma_top.
+Qed.
+
+(* the test used by entails, on an environment: exact for INEQ / STRICT of the language *)
+Lemma entail_fn_exact mv c a x : mwfI mv -> lang1 c a x -> lc_kind c <> EQ ->
+  (entail_fn (EMap mv) c = true <-> forall s, gmap mv s -> sat c s).
+Proof.
+  intros M L NE. unfold entail_fn, d_add0. cbn [fold_left]. unfold sys_add at 1. cbn [existsb app].
+  pose proof (lc_negate_lang c a x L NE) as LN.
+  assert (F : Forall lang [lc_negate c]) by (repeat constructor; exists (- a), x; auto).
+  pose proof (solve_lang_exact [lc_negate c] max_reduction_cycles mv F M) as S.
+  destruct (solve [lc_negate c] max_reduction_cycles mv) as [m'|]; simpl.
+  - destruct S as [M' G]. split; [discriminate|]. intros H.
+    destruct (mwfI_inhabited m' M') as [s Gs]. apply G in Gs. destruct Gs as [Gs A].
+    inversion A; subst. apply lc_negate_spec in H2. destruct (H2 (H s Gs)).
+  - split; auto. intros _ s Gs. destruct (sat_dec c s) as [Y|N]; auto.
+    exfalso. apply (S s Gs). repeat constructor. apply lc_negate_spec. auto.
+Qed.
+
+Theorem d_entails_lang_exact c e : lang c -> ewf e ->
+  (d_entails c e = true <-> forall s, genv e s -> sat c s).
+Proof.
+  intros [a [x L]] W. pose proof L as [[T U] ND]. unfold d_entails.
+  destruct e as [|m]; cbn [e_is_bot].
+  - split; auto. intros _ s [].
+  - unfold lc_is_tautology, lc_is_contradiction.
+    assert (NC : le_is_constant (lc_exp c) = false) by (unfold le_is_constant; rewrite T; reflexivity).
+    rewrite NC. cbn [andb]. unfold lc_vars. rewrite T. cbn [map snd fold_left e_at].
+    set (I := get m x). assert (WI : iwf I) by apply W.
+    unfold e_set, e_top. destruct WI as [WI1 WI2]. rewrite WI2.
+    set (mv := put [] x I).
+    assert (Mv : mwfI mv) by (apply mwfI_put; [apply mwfI_nil|split; auto]).
+    (* the question only depends on the interval of x *)
+    assert (X : forall c', ut c' a x \/ ut c' (- a) x ->
+              ((forall s, gmap mv s -> sat c' s) <-> (forall s, gmap m s -> sat c' s))).
+    { intros c' U'. assert (exists b, ut c' b x) as [b Ub] by (destruct U'; eauto).
+      destruct (mwfI_inhabited m W) as [s0 G0]. split; intros H s G.
+      - apply (sat_sat1 c' b x s Ub).
+        assert (G1 : gmap mv (upd s0 x (s x))).
+        { apply gmap_single; [split; auto|]. rewrite upd_same. apply G. }
+        specialize (H _ G1). apply (sat_sat1 c' b x _ Ub) in H. rewrite upd_same in H. auto.
+      - apply (sat_sat1 c' b x s Ub).
+        assert (G1 : gmap m (upd s0 x (s x))).
+        { apply gmap_upd; auto. apply (gmap_single I x s); [split; auto|]. auto. }
+        specialize (H _ G1). apply (sat_sat1 c' b x _ Ub) in H. rewrite upd_same in H. auto. }
+    simpl genv.
+    destruct (lc_kind c) eqn:K; try congruence.
+    + (* EQ: both inequalities *)
+      set (c1 := mkLC INEQ (lc_exp c)). set (c2 := mkLC INEQ (le_neg (lc_exp c))).
+      assert (L1 : lang1 c1 a x) by (apply lang1_ineq_of; auto).
+      assert (L2 : lang1 c2 (- a) x) by (apply lang1_ineq_of; [apply le_neg_terms; auto|apply unit1_opp; auto]).
+      pose proof (entail_fn_exact mv c1 a x Mv L1 ltac:(simpl; congruence)) as E1.
+      pose proof (entail_fn_exact mv c2 (- a) x Mv L2 ltac:(simpl; congruence)) as E2.
+      rewrite (X c1 (or_introl (proj1 L1))) in E1. rewrite (X c2 (or_intror (proj1 L2))) in E2.
+      assert (SQ : forall s, sat c s <-> (sat c1 s /\ sat c2 s)).
+      { intros s. unfold sat, c1, c2. rewrite K. simpl. rewrite eval_le_neg. lia. }
+      destruct (entail_fn (EMap mv) c1) eqn:B1; cbn [negb].
+      * rewrite E2. split; intros H s G; [apply SQ; split; [apply E1|]; auto|apply SQ; auto].
+      * split; [discriminate|]. intros H. apply E1. intros s G. apply SQ. auto.
+    + (* INEQ *)
+      rewrite (entail_fn_exact mv c a x Mv L ltac:(congruence)). apply X. left. split; auto.
+    + (* STRICT *)
+      rewrite (entail_fn_exact mv c a x Mv L ltac:(congruence)). apply X. left. split; auto.
+Qed.
+
+(* ------------------------------------------------------------------ histories *)
+From CrabV Require Import Dom.History.
+
+(* the operations of the property: constraints of the language, joins, meets, forgets, copies *)
+Definition ihop_ok (o : hop) : Prop :=
+  match o with
+  | HTop _ | HBot _ | HCopy _ _ | HForget _ _ | HJoin _ _ _ | HMeet _ _ _ => True
+  | HAssume _ cs => Forall lang cs
+  | _ => False
+  end.
+
+Lemma rget_ewf rs r : Forall ewf rs -> ewf (rget rs r).
+Proof.
+  intros F. unfold rget. revert r. induction F; intros [|r]; simpl; auto; apply mwfI_nil.
+Qed.
+Lemma rset_ewf rs r v : Forall ewf rs -> ewf v -> Forall ewf (rset rs r v).
+Proof. intros F W. revert r. induction F; intros [|r]; simpl; auto. Qed.
+
+Theorem ihstep_wf rs o : Forall ewf rs -> ihop_ok o -> Forall ewf (hstep rs o).
+Proof.
+  intros F O. destruct o; simpl in *; try tauto; apply rset_ewf; auto.
+  - apply mwfI_nil.
+  - apply rget_ewf; auto.
+  - apply d_add_lang_exact; auto. apply rget_ewf; auto.
+  - apply d_forget_exact. apply rget_ewf; auto.
+  - apply e_join_wf; apply rget_ewf; auto.
+  - apply e_meet_exact; apply rget_ewf; auto.
+Qed.
+
+(* the invariant holds after ANY history of such operations *)
+Theorem ihrun_wf h : forall rs, Forall ewf rs -> Forall ihop_ok h -> Forall ewf (hrun rs h).
+Proof.
+  unfold hrun. induction h as [|o h IH]; intros rs F O; simpl; auto.
+  inversion O; subst. apply IH; auto. apply ihstep_wf; auto.
+Qed.
+
+(* non-vacuity *)
+Example itv_exact_example :
+  let c1 := mkLC INEQ (mkLE [(1, 0%N)] (-5)) in          (* x <= 5 *)
+  let c2 := mkLC STRICT (mkLE [(-1, 0%N)] 5) in          (* -x + 5 < 0, i.e. x > 5 *)
+  lang c1 /\ lang c2 /\ ewf e_top /\
+  e_is_bot (d_add [c1] e_top) = false /\ e_is_bot (d_add [c1; c2] e_top) = true /\
+  d_entails (mkLC INEQ (mkLE [(1, 0%N)] (-7))) (d_add [c1] e_top) = true /\
+  d_entails (mkLC INEQ (mkLE [(1, 0%N)] (-4))) (d_add [c1] e_top) = false.
+Proof.
+  repeat split; try (vm_compute; reflexivity); try apply mwfI_nil;
+    try (eexists; eexists; split; [split; [reflexivity|]|simpl; congruence]; (left; reflexivity) || (right; reflexivity)).
+Qed.
+
+(* the first sentence of the property, literally: assume any conjunction from top *)
+Theorem itv_conjunction_exact cs : Forall lang cs ->
+  let e := d_add cs e_top in
+  (e_is_bot e = true <-> forall s, ~ Forall (fun c => sat c s) cs) /\
+  (forall c, lang c ->
+     (d_entails c e = true <-> forall s, Forall (fun c => sat c s) cs -> sat c s)).
+Proof.
+  intros F e. destruct (d_add_lang_exact cs e_top F mwfI_nil) as [W G]. fold e in W, G.
+  split.
+  - rewrite (e_bottom_exact e W). split.
+    + intros H s X. apply (H s). apply G. split; [apply genv_top|auto].
+    + intros H s X. apply G in X. apply (H s). tauto.
+  - intros c Lc. rewrite (d_entails_lang_exact c e Lc W). split; intros H s X.
+    + apply H. apply G. split; [apply genv_top|auto].
+    + apply H. apply G in X. tauto.
+Qed.
